@@ -61,24 +61,22 @@ def op_to_coq(o):
     raise ValueError("unknown op %r" % (o,))
 
 
-HASH_P = 2305843009213693951
-
-
 def row_hash(row):
+    """mirror of row_hash in coq/theories/C42/Tie.v (arithmetic modulo 2^63)"""
     acc = 7
     for x in row:
-        acc = (acc * 1000003 + x + 17) % HASH_P
+        acc = (acc * 1000003 + x + 17) % (1 << 63)
     return acc
 
 
 def cases_v(cases):
     """cases.v body: one definition per case (keeps each term small), summary = mismatching cases."""
-    out = ["From Coq Require Import ZArith List Bool. Import ListNotations.",
-           "From GV Require Import C42.Model.", "Open Scope Z_scope."]
+    out = ["From Coq Require Import ZArith List Bool Uint63. Import ListNotations.",
+           "From GV Require Import C42.Model C42.Tie.", "Open Scope Z_scope."]
     names = []
     for k, c in enumerate(cases):
         ops = "[" + "; ".join(op_to_coq(o) for o in c["ops"]) + "]"
-        obs = "[" + "; ".join(str(row_hash(row)) for row in c["obs"]) + "]"
+        obs = "[" + "; ".join("%d%%uint63" % row_hash(row) for row in c["obs"]) + "]"
         out.append("Definition r%d := check_case_h 1 %s %d %s %s." % (k, b(c["notify"]), c["window"], ops, obs))
         names.append("(%d%%nat, r%d)" % (k, k))
     out.append("Definition results : list (nat * option (nat * list Z)) := [%s]." % "; ".join(names))
@@ -300,3 +298,127 @@ def fault_stats(c):
         if o["op"].startswith("Raw"):
             st["raw"] += 1
     return st
+
+
+# ------------------------------------------------------------------ the pipeline shared by C42 and C43
+def run_rd_check(ctx, pid, test_name, files, mix, oracle, theorems, quick_n, thorough_n):
+    import time
+    from vlib import read_jsonl, canon_hash
+    ctx.trusted += [
+        "Go harness drives the real controllers' Receive directly (shell actor hosts lifecycle + PostStart); peers, endpoints, timers and the network are played by the harness",
+        "consumer gap-request rate limit (time.Now) is replaced by a per-step oracle bit by presetting lastGapRequest in-package",
+        "identifier numbering: real uuids are numbered by first appearance (the model's counters issue them in that order)"]
+    ctx.assumptions += [
+        "no controller restart (one incarnation of each controller, one session) — as in the property statement",
+        "volatile flow (no durable queue) and whole-payload messages (chunking disabled); durable queue lane and chunk assembly are a stated second layer, not modelled",
+        "sequence numbers stay below 2^63-1 (the controller's own exhaustion guard is modelled; Z arithmetic otherwise unbounded)",
+        "controller traffic faults = loss, duplication, reordering, delay of messages actually sent (no forgery); endpoint messages arbitrary"]
+    low = pid.lower()
+    plans = []
+    if ctx.replay_path:
+        rp = json.load(open(ctx.replay_path))
+        plans = [rp["replay"]["plan"]] if "plan" in rp.get("replay", {}) else []
+    else:
+        for k, cc in enumerate(load_corpus(os.path.join(os.path.dirname(os.path.dirname(os.path.abspath(__file__))), "corpus", pid))):
+            cc = dict(cc)
+            cc["id"] = "%sc%d" % (low, k)
+            plans.append(cc)
+        n = thorough_n if ctx.thorough else quick_n
+        plans += make_plans(ctx, low + "g", mix, n, 120, 420 if ctx.thorough else 300, [1, 2, 2, 3, 3, 4, 5, 8, 16])
+    pin, pout = os.path.join(ctx.work, low + "_plans.jsonl"), os.path.join(ctx.work, low + "_cases.jsonl")
+    with open(pin, "w") as f:
+        for p in plans:
+            f.write(json.dumps(p) + "\n")
+    if os.path.exists(pout):
+        os.remove(pout)
+    ctx.log("running %d plans on the real controllers" % len(plans))
+    rc, out = ctx.go_test("actor", "^%s$" % test_name, files, timeout=1500)
+    ctx.log("go harness done rc=%d" % rc)
+    cases = read_jsonl(pout)
+    errs = [c for c in cases if c.get("error")]
+    if rc != 0 or len(cases) != len(plans) or errs:
+        ctx.tie_broken("go-harness actor reliable-delivery controllers (%s)" % test_name,
+                       {"rc": rc, "cases": len(cases), "plans": len(plans), "errors": [c["error"] for c in errs][:3], "tail": out[-2500:]})
+    cases = [c for c in cases if not c.get("error")]
+    plan_by_id = {p["id"]: p for p in plans}
+
+    def replay_of(c, upto):
+        p = dict(plan_by_id.get(c["id"], {}))
+        p.update({"id": c["id"] + "r", "mode": c["mode"], "window": c["window"], "notify": c["notify"], "ops": c["ops"][:upto]})
+        return {"plan": p, "how": "ops are executed verbatim on the real controllers: DeliverPC/DeliverCC i = deliver the i-th message ever sent in that direction; Tick*; Produced/StoredAck/Confirmed = endpoint messages",
+                "test": test_name}
+
+    # ---- independent oracle on the implementation runs
+    n_viol = 0
+    for c in cases:
+        if any(not is_legit(o) for o in c["ops"]):
+            continue  # forged controller traffic is outside the property's fault model (tie only)
+        for (sig, what, step) in oracle(c)[:1]:
+            if n_viol < 4:
+                ctx.violation(sig, "%s (case %s, mode %s, window %d, step %d of %d)" % (what, c["id"], c["mode"], c["window"], step, len(c["ops"])),
+                              replay_of(c, step))
+            n_viol += 1
+        if c.get("chunked_seen"):
+            ctx.tie_broken("chunked traffic on a flow with chunking disabled", {"case": c["id"]})
+
+    # ---- model vs implementation: the Coq model evaluated on the same schedules
+    ok_model, mo = ctx.coq_build(["theories/C42/Tie.vo"])
+    mism = None
+    if not ok_model:
+        ctx.tie_broken("C42/Model.v does not compile", mo)
+    elif cases:
+        t0 = time.time()
+        rc2, o2 = ctx.coq_eval("cases_" + pid, cases_v(cases))
+        res = parse_summary(o2)
+        ctx.log("coq model evaluated on %d cases in %.1fs" % (len(cases), time.time() - t0))
+        if rc2 != 0 or res is None or res[0] != len(cases):
+            ctx.tie_broken("model evaluation (cases.v did not evaluate)", o2)
+        else:
+            mism = res[1]
+            for (ci, step, mobs) in res[2][:2]:
+                c = cases[ci]
+                iobs = c["obs"][step] if step < len(c["obs"]) else None
+                ctx.tie_broken("model-vs-implementation %s step" % pid,
+                               {"case": c["id"], "mode": c["mode"], "window": c["window"], "step": step,
+                                "op": c["ops"][step - 1] if step > 0 else "init",
+                                "model_obs": mobs, "impl_obs": iobs,
+                                "model": split_groups(mobs) if mobs else None, "impl": split_groups(iobs) if iobs else None,
+                                "mismatching_cases": res[1], "replay": replay_of(c, step)})
+
+    # ---- theorems
+    ctx.log("building the Coq closure of Properties/%s.v" % pid)
+    if not ctx.coq_property():
+        if not any(f.kind == "violation" for f in ctx.findings):
+            ctx.proof_broken("Properties/%s.v (%s)" % (pid, getattr(ctx, "failed_at", "?")), getattr(ctx, "coq_log", ""))
+        else:
+            ctx.notes.append("Coq obligation broken at %s; concrete failing input reported" % getattr(ctx, "failed_at", "?"))
+
+    # ---- coverage
+    steps = sum(len(c["ops"]) for c in cases)
+    hist, modes = {}, {}
+    agg = {"dup": 0, "reorder": 0, "never": 0, "ticks": 0, "raw": 0}
+    nontriv = set()
+    maxseq = 0
+    for c in cases:
+        modes[c["mode"]] = modes.get(c["mode"], 0) + 1
+        for o in c["ops"]:
+            key = o["op"] + (":" + o["kind"] if o.get("kind") else "")
+            hist[key] = hist.get(key, 0) + 1
+        st = fault_stats(c)
+        for k in agg:
+            agg[k] += st[k]
+        last = split_groups(c["obs"][-1])
+        maxseq = max(maxseq, last["P"]["cur"])
+        if last["C"]["conf"] >= 3 and (st["dup"] + st["reorder"] + st["never"]) >= 3:
+            nontriv.add(canon_hash([c["window"], c["notify"], c["ops"]]))
+    ctx.coverage.update({
+        "evaluations": steps,
+        "distinct_nontrivial": len(nontriv),
+        "rule": "one evaluation = one step of a real controller's Receive compared with the Coq model (outgoing traffic per recipient + 30 state fields); "
+                "a case is non-trivial when the consumer confirmed >= 3 messages and the schedule contains >= 3 faults (duplicate / out-of-order / never delivered); distinct by (window, notify, ops)",
+        "cases": len(cases), "modes": modes, "op_histogram": hist, "faults": agg, "max_seq_reached": maxseq,
+        "failed_flows": sum(1 for c in cases if c.get("failed")), "fair_tails_checked": sum(1 for c in cases if c.get("drained", -1) >= 0),
+        "model_mismatching_cases": mism,
+        "samples": [{"id": c["id"], "mode": c["mode"], "window": c["window"], "ops": c["ops"][:12], "last_obs": c["obs"][-1]} for c in cases[:2]],
+        "theorems": theorems,
+    })
